@@ -32,7 +32,7 @@ import numpy as np
 from . import heapgen as hg
 from .alisession import TITLE
 
-Y_OPS = ("writegro", "updtop", "molset", "molget", "index", "hash")
+Y_OPS = ("writegro", "updtop", "molset", "molget", "index", "hash", "dupindex")
 Y_READONLY = ("writegro", "molget", "index", "hash")
 
 
@@ -110,7 +110,10 @@ def aim(w, rng):
     by = {}
     for j, mj in enumerate(w.meta):
         by.setdefault(mj["kind"], []).append(j)
-    flow = rng.choice(["writegro", "writegro", "updtop", "updtop", "index", "index", "hash", "molset", "molget", "mixvel"])
+    flow = rng.choice(["writegro", "writegro", "updtop", "updtop", "index", "index", "hash", "molset", "molget", "mixvel",
+                       "dupindex"])
+    if flow == "dupindex":
+        return (rng.choice(by["mol"]), "dupindex")
     if flow == "mixvel":
         # one atom gets (or loses) its velocity: the object then has velocities on SOME atoms only
         c = by.get("atom", []) + by.get("agro", [])
@@ -210,6 +213,52 @@ def do_step_y(ctx, c18, w, rng, mode, op, i, rec):
     for j, mj in enumerate(w.meta):
         by.setdefault(mj["kind"], []).append(j)
 
+    if op == "dupindex":
+        # two atoms of one residue made EQUAL (same name, same index) through their views; `index()` of the later one
+        # must answer the position of the FIRST (needs a molecule whose labels may be changed)
+        sizes = [len(r) for r in o.residues]
+        ok_mol = len(o) == sum(sizes) and c18.label_ok(w, i, mode) and any(sz >= 2 for sz in sizes)
+        if not ok_mol:
+            op = "index"
+        else:
+            ri = rng.choice([r for r, sz in enumerate(sizes) if sz >= 2])
+            off = sum(sizes[:ri])
+            k1, k2 = sorted(rng.sample(range(off, off + sizes[ri]), 2))
+            try:
+                a_name, a_index = str(o[k1].name), int(o[k1].index)
+            except Exception:   # noqa: BLE001   (inconsistent molecule)
+                a_name = None
+            if a_name is None:
+                op = "index"
+            else:
+                st, vb = w.run(f"getatom {i} {k2}", f"mol[{i}] getatom {k2}", lambda: o[k2],
+                               {"g": m["g"], "t": m["t"], "parent": i, "k": k2})
+                if st != "ok":
+                    rec["op"], rec["alloc_only"], rec["status"] = "getatom", True, st
+                    return rec
+                jb = len(w.env) - 1
+                for nm, v in (("name", a_name), ("index", a_index)):
+                    w.run(f"setattrn {jb} {hg.hexs(nm)} {c18.tok_pyval(c18.to_pyval(v))}", f"atom[{jb}].{nm}={v!r} (named)",
+                          lambda nm=nm, v=v: setattr(vb, nm, v))
+                st, ret = w.run(f"index {i} {jb}", f"mol[{i}].index(atom[{jb}])", lambda: (o.index(vb),))
+                if st == "ok":
+                    w.extra[-1] = c18.to_pyval(ret[0])
+                ctx.count(f"index:duplicate-atoms:{st}")
+                try:
+                    with warnings.catch_warnings():
+                        warnings.simplefilter("ignore")
+                        eqs = [bool(a == vb) for a in o]
+                    want = eqs.index(True) if True in eqs else "ValueError"
+                except Exception as e:   # noqa: BLE001   (a molecule made inconsistent earlier: iteration raises)
+                    want = hg.exc_name(e)
+                ctx.oracle_ok(1)
+                got = ret[0] if st == "ok" else st
+                if (isinstance(want, int) or want == "ValueError") and got != want:
+                    ctx.oracle_fail("c18:index:not-the-first-equal-atom", case, {"op": w.desc[-1], "got": got, "want": want})
+                if want == k1:
+                    ctx.count("index:duplicate-atoms:first-of-two-equal-atoms")
+                rec["op"], rec["alloc_only"], rec["status"] = "setn", False, st
+                return rec
     if op == "writegro":
         x = rng.random()
         base = "w%d" % len(w.ops)
